@@ -412,24 +412,14 @@ def run(ctx):
     assert crc_sparse(b"ab", 1000, b"cd", 32) == zlib.crc32(b"ab" + bytes(1000) + b"cd")
     assert crc_sparse(b"ab", 77, b"cd", 64) == crc64_py(b"ab" + bytes(77) + b"cd")
     hlines = huge_cases(ctx)
-    hres = vlib.par_map(lambda ln: vlib.run_lines([exe], [ln], timeout=900), hlines, workers=min(len(hlines), 12))
-    hbad = 0
-    for ln, (rc, out, err) in zip(hlines, hres):
-        ctx.count("huge single call (>= 2^32 bytes)" if int(ln.split()[2]) >= 1 << 32 else "huge single call (2^32 - 1 bytes)")
-        got = out[0] if out else "harness-abort"
-        if got in ("mmap-failed", "unsupported-32-bit-size_t"):
-            ctx.count("huge case skipped: " + got)
-            continue
-        ctx.case(ln, True, sample={"op": ln, "impl": got} if ln.startswith("huge crc64pub") else None)
-        exp = huge_oracle(ln.split())
-        if rc != 0 or got != exp:
-            hbad += 1
-            ctx.violation("huge-" + ln.split()[1], {"kind": "large-buffer case (0.5 … 4 GiB, sparse) differs from the standard value (crc/check fns: columns one call, same buffer in ~1 GiB pieces; sha256: one call; sha256p: 64 MiB pieces)",
-                                                    "op": ln, "impl": got, "python_reference": exp, "stderr": err[-1500:],
-                                                    "how_to_replay": "./check C14 --replay <this file>"}, True)
-    ctx.cov["huge_single_call"] = {"ops": len(hlines), "failing": hbad,
-                                   "note": "counts >= 2^32 in one call are outside the List-based Lean model (no size_t there); covered by this run only"}
-    ctx.log("huge single-call cases done (%d ops, %d failing)" % (len(hlines), hbad))
+
+    def huge_run():
+        res = vlib.par_map(lambda ln: vlib.run_lines([exe], [ln], timeout=1500), hlines, workers=min(len(hlines), 10))
+        exps = vlib.par_map(lambda ln: huge_oracle(ln.split()), hlines, workers=4)
+        return res, exps
+    from concurrent.futures import ThreadPoolExecutor
+    huge_pool = ThreadPoolExecutor(max_workers=1)
+    huge_future = huge_pool.submit(huge_run)      # runs next to stage K; judged below
     # K
     lines = gen_cases(ctx)
     parts = vlib.chunks(lines, vlib.NCPU * 2)
@@ -475,6 +465,25 @@ def run(ctx):
             if mism > 5:
                 break
     ctx.cov["correspondence"] = {"ops": len(lines), "mismatches": mism, "model_ran": m_out is not None}
+    # judge the huge single-call cases
+    hres, hexps = huge_future.result()
+    huge_pool.shutdown()
+    hbad = 0
+    for ln, (rc, out, err), exp in zip(hlines, hres, hexps):
+        ctx.count("huge single call (>= 2^32 bytes)" if int(ln.split()[2]) >= 1 << 32 else "large buffer (2^29 … 2^32 - 1 bytes)")
+        got = out[0] if out else "harness-abort"
+        if got in ("mmap-failed", "unsupported-32-bit-size_t"):
+            ctx.count("huge case skipped: " + got)
+            continue
+        ctx.case(ln, True, sample={"op": ln, "impl": got} if ln.startswith("huge crc64pub") else None)
+        if rc != 0 or got != exp:
+            hbad += 1
+            ctx.violation("huge-" + ln.split()[1], {"kind": "large-buffer case (0.5 … 4 GiB, sparse) differs from the standard value (crc/check fns: columns one call, same buffer in ~1 GiB pieces; sha256: one call; sha256p: 64 MiB pieces)",
+                                                    "op": ln, "impl": got, "python_reference": exp, "stderr": err[-1500:],
+                                                    "how_to_replay": "./check C14 --replay <this file>"}, True)
+    ctx.cov["huge_single_call"] = {"ops": len(hlines), "failing": hbad,
+                                   "note": "counts >= 2^32 in one call are outside the List-based Lean model (no size_t there); covered by this run only"}
+    ctx.log("huge / large-buffer cases done (%d ops, %d failing)" % (len(hlines), hbad))
     if lc_future is not None:
         nmods, bad = lc_future.result()
         lc_pool.shutdown()
